@@ -45,7 +45,8 @@ class Sources:
 
     def tree(self, m) -> ast.Module:
         if m not in self._trees:
-            self._trees[m] = ast.parse(self.text[m], filename=self.path.get(m, m))
+            from sa.desugar import desugar
+            self._trees[m] = desugar(ast.parse(self.text[m], filename=self.path.get(m, m)))
         return self._trees[m]
 
     def package_modules(self):
